@@ -24,6 +24,7 @@ import (
 	"testing"
 	"time"
 
+	"github.com/libp2p/go-libp2p/core/crypto"
 	"github.com/libp2p/go-libp2p/core/peer"
 	"github.com/libp2p/go-libp2p/p2p/http/auth/internal/handshake"
 	"github.com/libp2p/go-libp2p/x/verif/vrep"
@@ -109,7 +110,14 @@ type c19CliRun struct {
 	log      []c19Exch
 	prior    peer.ID // ID returned by the preparatory honest call (two-call flows)
 	prepErr  error
+	prepLog  []c19Exch // the exchanges of the preparatory call
 	foreign  []string
+	// follow-up: after an observed call that returned without error, one more fault-free call of the same client
+	// for the same hostname - what the client CACHED with the token is what this call reports
+	afterRan bool
+	afterID  peer.ID
+	afterErr error
+	afterLog []c19Exch
 }
 
 var c19CliFlows = []string{"ci", "si-fallback", "si-after-reject", "token-reuse"}
@@ -140,7 +148,7 @@ func c19ClientRun(t *testing.T, keys *c19Keys, S *c19Server, client *c19Key, hos
 			if resp != nil && resp.Body != nil {
 				resp.Body.Close()
 			}
-			res.prior, res.prepErr = id, err
+			res.prior, res.prepErr, res.prepLog = id, err, rt.log
 			if err != nil {
 				return
 			}
@@ -155,18 +163,33 @@ func c19ClientRun(t *testing.T, keys *c19Keys, S *c19Server, client *c19Key, hos
 			resp.Body.Close()
 		}
 		res.id, res.err, res.log, res.foreign = id, err, rt.log, rt.foreign
+		if err == nil {
+			rt.stripFirst, rt.fault = false, nil
+			rt.n, rt.log = 0, nil
+			id, resp, err := ca.AuthenticatedDo(hc, newReq())
+			if resp != nil && resp.Body != nil {
+				resp.Body.Close()
+			}
+			res.afterRan, res.afterID, res.afterErr, res.afterLog = true, id, err, rt.log
+		}
 	})
 	return res
 }
 
 // c19ClientJustified: is the ID the client reported backed by a server proof?
 func c19ClientJustified(keys *c19Keys, client *c19Key, host string, run c19CliRun) (bool, string) {
-	k := keys.byID[run.id]
+	return c19ClientJustifiedBy(keys, client, host, run.id, run.log, run.prior)
+}
+
+// c19ClientJustifiedBy decides it for one call: id = what the call returned, log = the exchanges of that call,
+// priors = IDs proven by earlier calls of the same client for this hostname (bearer-token reuse).
+func c19ClientJustifiedBy(keys *c19Keys, client *c19Key, host string, id peer.ID, log []c19Exch, priors ...peer.ID) (bool, string) {
+	k := keys.byID[id]
 	if k == nil {
 		return false, "the ID belongs to no key that exists in the run"
 	}
 	var challenges []string
-	for _, e := range run.log {
+	for _, e := range log {
 		if v, ok := c19Get(c19ParseHonest(e.reqAuthz), "challenge-server"); ok && v != "" {
 			challenges = append(challenges, v)
 		}
@@ -181,8 +204,10 @@ func c19ClientJustified(keys *c19Keys, client *c19Key, host string, run c19CliRu
 			}
 		}
 	}
-	if run.prior != "" && run.id == run.prior {
-		return true, "ID proven by the earlier call for this hostname (token reuse)"
+	for _, p := range priors {
+		if p != "" && id == p {
+			return true, "ID proven by an earlier call for this hostname (token reuse)"
+		}
 	}
 	return false, fmt.Sprintf("no response of the call carries a signature by that ID's key over any of the %d challenge(s) the client sent in this call, the client's public key and hostname %q", len(challenges), host)
 }
@@ -225,7 +250,9 @@ func c19GenClientFaults(w *c19CliWorld, cfg c19CliCfg, base c19CliRun, donors []
 	otherClient := w.keys.get(cfg.ckt, "client1")
 	nextKT := c19KeyTypes[(c19KTIndex(cfg.skt)+1)%len(c19KeyTypes)]
 	srvB, srvC := w.server(cfg.skt, "B"), w.server(nextKT, "A")
+	seen := map[string]struct{}{} // (round trip, header, delivered value) already generated
 	onHdr := func(i int, which, kind, det string, fn func(string) string) {
+		seen[fmt.Sprint(i, which, "|", fn(c19HdrOf(base.log[i], which)))] = struct{}{}
 		emit(&c19Fault{RT: i, Kind: which + "/" + kind, Detail: det, resp: func(st int, www, info string) (int, string, string) {
 			if which == "www" {
 				return st, fn(www), info
@@ -324,6 +351,7 @@ func c19GenClientFaults(w *c19CliWorld, cfg c19CliCfg, base c19CliRun, donors []
 			}
 		}
 	}
+	c19GenClientAddFaults(w, cfg, base, donors, thorough, seen, emit)
 	// man-in-the-middle actions on the forwarded request, at one round trip or at all of them
 	rts := []int{-1}
 	for i := range base.log {
@@ -358,6 +386,170 @@ func c19GenClientFaults(w *c19CliWorld, cfg c19CliCfg, base c19CliRun, donors []
 			emit(&c19Fault{RT: i, Kind: "mitm/challenge-replaced-by-stale", req: repl("challenge-server", staleCS)})
 		}
 		emit(&c19Fault{RT: i, Kind: "mitm/authorization-stripped", req: func(up *c19Server, host, _ string) (*c19Server, string, string) { return up, host, "" }})
+	}
+}
+
+// c19PoolMsg is one message (or one whole exchange) a malicious server has at hand: its parameters can be
+// re-sent in any later - or any other - message.
+type c19PoolMsg struct {
+	name string
+	ps   []c19Param
+}
+
+// c19GenClientAddFaults: the malicious-server edits that ADD something to a message. For every response header
+// of every round trip of the flow (and for every header the honest response does not carry at all):
+//   - every parameter of every message of the pool - the Authorization, WWW-Authenticate and Authentication-Info
+//     values of every round trip (including the preparatory call) of this very run and of the donor runs (stale
+//     session, other hostname, other server of the same / another key type, other client) - added at the end and
+//     at the front, whether or not the header already carries that parameter (absent -> added, present -> duplicated);
+//   - all parameters of one whole exchange (request + responses of one round trip) added at once, at the end / front;
+//   - every known parameter name (and two the scheme does not define) with attacker-chosen values: the key of a
+//     victim who never signs anything (same / other key type), the attacker's own key, the client's key, a well-formed
+//     key nobody holds, garbage, non-base64, empty; a signature by the attacker over this run's fresh data; constants;
+//   - the attacker's own / a victim's key together with the attacker's signature over this run's fresh data.
+//
+// One such edit of one message per execution. Edits that produce a header value already generated for the same
+// position are skipped.
+func c19GenClientAddFaults(w *c19CliWorld, cfg c19CliCfg, base c19CliRun, donors []c19Donor, thorough bool, seen map[string]struct{}, emit func(*c19Fault)) {
+	if !thorough && cfg.host != 0 {
+		return // quick tier: these families for the first hostname only (the two hostnames are symmetric)
+	}
+	client, hn, otherHost := w.keys.get(cfg.ckt, "client0"), c19Hosts[cfg.host], c19Hosts[1-cfg.host]
+	nextKT := c19KeyTypes[(c19KTIndex(cfg.skt)+1)%len(c19KeyTypes)]
+	attacker := w.server(cfg.skt, "B").key
+	victim, victim2 := w.keys.get(cfg.skt, "victim"), w.keys.get(nextKT, "victim")
+	var pool, exch []c19PoolMsg
+	addRun := func(dn string, log []c19Exch, tag string) {
+		for j, e := range log {
+			var union []c19Param
+			for _, m := range []struct{ kind, h string }{{"req", e.reqAuthz}, {"www", e.www}, {"info", e.info}} {
+				ps := c19ParseHonest(m.h)
+				if m.h == "" || len(ps) == 0 {
+					continue
+				}
+				pool = append(pool, c19PoolMsg{fmt.Sprintf("%s/%s%d/%s", dn, tag, j, m.kind), ps})
+				union = append(union, ps...)
+			}
+			if len(union) > 0 {
+				exch = append(exch, c19PoolMsg{fmt.Sprintf("%s/%s%d", dn, tag, j), union})
+			}
+		}
+	}
+	addRun("self", base.prepLog, "prep")
+	addRun("self", base.log, "rt")
+	for _, d := range donors {
+		addRun(d.name, d.run.prepLog, "prep")
+		addRun(d.name, d.run.log, "rt")
+	}
+	deliver := func(i int, which, kind, v string) {
+		sk := fmt.Sprint(i, which, "|", v)
+		if _, dup := seen[sk]; dup {
+			return
+		}
+		seen[sk] = struct{}{}
+		emit(&c19Fault{RT: i, Kind: which + "/" + kind, resp: func(st int, www, info string) (int, string, string) {
+			if which == "www" {
+				return st, v, info
+			}
+			return st, www, v
+		}})
+	}
+	cat := func(a, b []c19Param) []c19Param { return append(append([]c19Param{}, a...), b...) }
+	unowned := ""
+	if pk, err := crypto.UnmarshalEd25519PublicKey([]byte("c19-a-key-nobody-holds-012345678")); err == nil {
+		if b, err := crypto.MarshalPublicKey(pk); err == nil {
+			unowned = c19B64(b)
+		}
+	}
+	garbage := func(n int, label string) string {
+		b := make([]byte, n)
+		io.ReadFull(c19Reader("garbage", label), b)
+		return c19B64(b)
+	}
+	cs := "" // the latest challenge the client has sent when response i is produced
+	for i, e := range base.log {
+		if v, ok := c19Get(c19ParseHonest(e.reqAuthz), "challenge-server"); ok && v != "" {
+			cs = v
+		}
+		attackerSig := ""
+		if cs != "" {
+			if sg, err := attacker.priv.Sign(c19ServerSigData(cs, client.pubBytes, hn)); err == nil {
+				attackerSig = c19B64(sg)
+			}
+		}
+		chosen := []struct{ k, label, v string }{
+			{"public-key", "victim", c19B64(victim.pubBytes)},
+			{"public-key", "victim-other-keytype", c19B64(victim2.pubBytes)},
+			{"public-key", "attacker", c19B64(attacker.pubBytes)},
+			{"public-key", "the-client's", c19B64(client.pubBytes)},
+			{"public-key", "well-formed-key-nobody-holds", unowned},
+			{"public-key", "garbage", garbage(36, "pk")},
+			{"public-key", "not-base64", "!!!"},
+			{"public-key", "empty", ""},
+			{"sig", "attacker-over-fresh-challenge", attackerSig},
+			{"sig", "garbage", garbage(64, "sig")},
+			{"sig", "not-base64", "!!!"},
+			{"sig", "empty", ""},
+			{"challenge-client", "constant", "YXR0YWNrZXItY2hvc2VuLWNoYWxsZW5nZS1jbGllbnQtMDEyMzQ1Njc4OQ=="},
+			{"challenge-client", "short", "QUJD"},
+			{"challenge-client", "empty", ""},
+			{"challenge-server", "constant", "bWl0bS1jaG9zZW4tY2hhbGxlbmdlLXNlcnZlci0wMTIzNDU2Nzg5"},
+			{"challenge-server", "echo-of-the-client's", cs},
+			{"opaque", "garbage", garbage(96, "opaque")},
+			{"opaque", "empty", ""},
+			{"bearer", "garbage", garbage(96, "bearer")},
+			{"bearer", "empty", ""},
+			{"hostname", "other", otherHost},
+			{"hostname", "refused", c19HBad},
+			{"peer-id", "victim", victim.id.String()},
+		}
+		for _, which := range []string{"www", "info"} {
+			H := c19HdrOf(e, which)
+			if H == "" {
+				// the honest response does not carry this header at all: add one
+				if thorough { // quick tier: whole exchanges and chosen keys only
+					for _, m := range pool {
+						deliver(i, which, "add-header/"+m.name, c19Build(m.ps))
+					}
+				}
+				for _, m := range exch {
+					deliver(i, which, "add-header-exchange/"+m.name, c19Build(m.ps))
+				}
+				for _, c := range chosen {
+					if c.k == "public-key" && c.v != "" {
+						deliver(i, which, "add-header-chosen/"+c.k+"="+c.label, c19Build([]c19Param{{c.k, c.v}}))
+					}
+				}
+				continue
+			}
+			ps := c19ParseHonest(H)
+			for _, m := range pool {
+				for _, p := range m.ps {
+					one := []c19Param{p}
+					deliver(i, which, "add-last/"+m.name+"/"+p.k, c19Build(cat(ps, one)))
+					deliver(i, which, "add-first/"+m.name+"/"+p.k, c19Build(cat(one, ps)))
+				}
+			}
+			for _, m := range exch {
+				deliver(i, which, "add-exchange-last/"+m.name, c19Build(cat(ps, m.ps)))
+				deliver(i, which, "add-exchange-first/"+m.name, c19Build(cat(m.ps, ps)))
+			}
+			for _, c := range chosen {
+				if c.v == "" && c.label != "empty" {
+					continue
+				}
+				one := []c19Param{{c.k, c.v}}
+				deliver(i, which, "add-chosen-last/"+c.k+"="+c.label, c19Build(cat(ps, one)))
+				deliver(i, which, "add-chosen-first/"+c.k+"="+c.label, c19Build(cat(one, ps)))
+			}
+			if attackerSig != "" {
+				for _, id := range []*c19Key{attacker, victim} {
+					two := []c19Param{{"public-key", c19B64(id.pubBytes)}, {"sig", attackerSig}}
+					deliver(i, which, "add-identity-last/key-of-"+id.label+"+sig-of-attacker", c19Build(cat(ps, two)))
+					deliver(i, which, "add-identity-first/key-of-"+id.label+"+sig-of-attacker", c19Build(cat(two, ps)))
+				}
+			}
+		}
 	}
 }
 
@@ -408,7 +600,12 @@ func TestVerifC19Client(t *testing.T) {
 	if !vrep.Thorough() {
 		r.Bounds["configurations_quick_tier"] = "as above, but only the 7 key-type pairs in which the server or the client is Ed25519"
 	}
-	r.Bounds["faults_per_execution"] = 1
+	r.Bounds["faults_per_execution"] = "1 edit of 1 message (an edit may add several parameters taken from one recorded message / exchange, or one key together with one signature)"
+	r.Bounds["added_parameters"] = "every parameter of every recorded message (Authorization / WWW-Authenticate / Authentication-Info of every round trip, preparatory call included, of this run and of 5 donor runs), singly and per whole exchange, and 24 attacker-chosen (name, value) pairs over {public-key, sig, challenge-client, challenge-server, opaque, bearer, hostname, peer-id}, each at the end and at the front of every response header, and as a header the honest response does not carry"
+	if !vrep.Thorough() {
+		r.Bounds["added_parameters_quick_tier"] = "as above for the first of the two hostnames; a header the honest response does not carry is added per whole exchange and per chosen key only (not per single recorded message)"
+	}
+	r.Bounds["follow_up_call"] = "after every observed call that returned without error: one fault-free call of the same client and hostname (reports what was cached with the token)"
 	r.Bounds["xor_masks"] = fmt.Sprintf("%#02x", masks)
 	sampled := map[string]bool{}
 	var generated int64
@@ -445,7 +642,12 @@ func TestVerifC19Client(t *testing.T) {
 						r.Cap("reference decision does not accept the fault-free %s flow (%s): %s", flow, cfg.name(), why)
 						continue
 					}
-					r.Outcome(fmt.Sprintf("baseline %s -> server ID after %d round trips", flow, len(base.log)))
+					if !base.afterRan || base.afterErr != nil || base.afterID != S.key.id {
+						r.Violate("client-baseline-failed", fmt.Sprintf("follow-up call after the fault-free %s flow (%s): AuthenticatedDo returned id=%s err=%v, want the server's ID",
+							flow, cfg.name(), w.keys.name(base.afterID), base.afterErr), rp)
+						continue
+					}
+					r.Outcome(fmt.Sprintf("baseline %s -> server ID after %d round trips, follow-up call -> server ID after %d", flow, len(base.log), len(base.afterLog)))
 					donors := []c19Donor{
 						{"stale", c19ClientRun(t, w.keys, S, client, hn, flow, seed+"|stale", nil)},
 						{"other-host", c19ClientRun(t, w.keys, S, client, c19Hosts[1-host], flow, seed+"|host", nil)},
@@ -493,6 +695,21 @@ func TestVerifC19Client(t *testing.T) {
 								r.Violate("client-reported-unproven-server/"+c19CliFamily(f.Kind),
 									fmt.Sprintf("AuthenticatedDo (%s, %s flow, Host %s) returned server ID %s without error under fault [round trip %d: %s %s] although %s",
 										cfg.name(), flow, hn, w.keys.name(run.id), f.RT, f.Kind, f.Detail, why), rp)
+							} else if run.afterRan && run.afterErr == nil {
+								// what was cached with the token: the next (fault-free) call may report only an ID proven in that
+								// call itself or by one of the earlier calls (the observed one, the preparatory one)
+								if ok, why := c19ClientJustifiedBy(w.keys, client, hn, run.afterID, run.afterLog, run.id, run.prior); !ok {
+									r.Violate("client-cached-unproven-server/"+c19CliFamily(f.Kind),
+										fmt.Sprintf("the call after AuthenticatedDo (%s, %s flow, Host %s; returned %s) under fault [round trip %d: %s %s] reported server ID %s without error although %s and no earlier call proved it",
+											cfg.name(), flow, hn, w.keys.name(run.id), f.RT, f.Kind, f.Detail, w.keys.name(run.afterID), why), rp)
+								}
+								switch {
+								case run.afterID == run.id:
+								case run.afterID == S.key.id:
+									r.Outcome("follow-up call -> honest server's ID after another ID")
+								default:
+									r.Outcome("follow-up call -> another ID than the observed call")
+								}
 							}
 						}
 						fam := c19CliFamily(f.Kind)
